@@ -259,9 +259,13 @@ def gen_desc(rng, opts=None):
                 break
         ids.add((arbid, ext))
         frames.append(gen_frame(rng, k, arbid, ext, o))
-    # frame names unique in their first 32 characters
+    # frame names unique; now and then two long names that agree in their first 32 characters (the file tells them apart by their identifiers)
     seen = set()
-    frames = [f for f in frames if not (f["name"][:32] in seen or seen.add(f["name"][:32]))]
+    frames = [f for f in frames if not (f["name"] in seen or seen.add(f["name"]))]
+    if len(frames) >= 2 and rng.random() < 0.12:
+        stem = "LongFrameName_shared_for_32_chars_" + str(rng.randrange(10))
+        frames[-1]["name"] = stem + "_A"
+        frames[rng.randrange(len(frames) - 1)]["name"] = stem + "_B" + rng.choice(["", "_tail"])
     d = {"enc": enc, "cenc": cenc, "flavour": flavour, "frames": frames,
          "ecus": [{"name": e, "comment": rng.choice(["", "", "ecu comment", "line one\nline two"] + ctexts),
                    "attrs": gen_attr_values(rng, defines["ecu"], texts, 0.4)} for e in ecus],
